@@ -24,7 +24,7 @@ from sim.core import prng
 from sim.core import runner as R
 from sim.core import mesonrun as M
 from sim.core import findings as F
-from sim.core.forkrun import ChildTimeout, ChildCrashed
+from sim.core.forkrun import forkrun, ChildTimeout, ChildCrashed
 from . import optproj as P
 
 SHIM = os.path.join(E.VERIF_DIR, 'build', 'vshim.so')
@@ -88,6 +88,7 @@ class Check:
         frng = prng.derive(prng.base_seed(), 'C09', tier, 'family', fam)
         spec = P.gen_spec(frng)
         spec['backend'] = 'ninja' if frng.random() < 0.3 else 'none'
+        spec['ct'] = spec['backend'] == 'ninja'
         cmd_kind = ['setup', 'reconfigure', 'wipe', 'configure', 'configure-U', 'reconfigure-edit', 'setup-again', 'clearcache'][fam % 8] if tier == 'quick' \
             else frng.choice(['setup', 'reconfigure', 'reconfigure', 'wipe', 'wipe', 'configure', 'configure', 'configure-U', 'reconfigure-edit',
                               'setup-again', 'clearcache'])
@@ -221,6 +222,32 @@ class Check:
                 rc = 97
                 text += '\nintrospect failed: ' + (ri['out'][-800:] if ri['ok'] else str(ri['exc']))
         return rc, vals, text
+
+    @staticmethod
+    def unreadable_state(root: str, bd: str) -> T.List[str]:
+        """Pickled state the recovered directory refers to - the fixed-name files and the meson_exe_*.dat wrappers build.ninja
+        names - that does not load ("no state file is left unreadable").  Leftovers nothing refers to are not judged."""
+        priv = os.path.join(bd, 'meson-private')
+        names = [n for n in ('coredata.dat', 'build.dat', 'install.dat', 'meson_test_setup.dat', 'meson_benchmark_setup.dat') if os.path.exists(os.path.join(priv, n))]
+        bn = os.path.join(bd, 'build.ninja')
+        if os.path.exists(bn):
+            with open(bn, errors='replace') as f:
+                names += sorted(set(re.findall(r'meson-private/(meson_exe_[^ $\n]*?\.dat)', f.read())))
+
+        def load_all() -> T.List[str]:
+            import pickle
+            bad = []
+            for n_ in names:
+                try:
+                    with open(os.path.join(priv, n_), 'rb') as fh:
+                        pickle.load(fh)
+                except Exception as e:
+                    bad.append(f'{n_}: {type(e).__name__}')
+            return bad
+        r = forkrun(load_all, capture=os.path.join(root, 'unpickle.log'), timeout=60, env=child_env())
+        if not r['ok']:
+            return ['<could not check: ' + str(r['exc'])[-200:] + '>']
+        return list(r['value'])
 
     @staticmethod
     def history_meson(root: str, argv: T.List[str], capture: str) -> T.Dict[str, T.Any]:
@@ -406,7 +433,7 @@ class Check:
                 if k % sel['mod'] != sel['rem']:
                     continue
                 base = os.path.basename(p['path'])
-                interesting = base in STATE_FILES or base.endswith('.ini') or p['path'].startswith(os.path.join('bd', 'meson-info')) \
+                interesting = base in STATE_FILES or base.endswith(('.ini', '.dat')) or p['path'].startswith(os.path.join('bd', 'meson-info')) \
                     or p['op'] in ('rename', 'unlink', 'rmdir', 'remove', 'open-trunc') or 'tmp' in p['path']
                 if sel['mode'] == 'all' or interesting or k in sample_ks:
                     chosen.append((k, False))
@@ -455,6 +482,10 @@ class Check:
                     v = R.violation('lost-value', f'killed `meson {" ".join(argv[:2])}` at mutation {k}/{n} ({pt["op"]} {pt["path"]}{" torn" if torn else ""}); '
                                     f'after recovery options have neither the old nor the new value: {json.dumps(bad, sort_keys=True)[:700]} missing={missing}',
                                     f'lost-value {where}', point=ptinfo)
+                elif self.unreadable_state(root, bd):
+                    v = R.violation('unreadable-state', f'killed `meson {" ".join(argv[:2])}` at mutation {k}/{n} ({pt["op"]} {pt["path"]}{" torn" if torn else ""}); '
+                                    f'the recovery run succeeded but left state files it refers to unreadable: {self.unreadable_state(root, bd)}',
+                                    f'unreadable-state {where}', point=ptinfo)
                 else:
                     rc2, vals2, text2 = self.observe(root, bd, sd, f'rec2-{k}-{int(torn)}')
                     if rc2 != 0 or vals2 != vals1:
